@@ -276,6 +276,9 @@ class Replacer:
 
     def __init__(self, base):
         self.base = self.extract_base(base)
+        scheme, location = urllib.parse.urlsplit(base)[:2]
+        # relative to another host only an absolute URL keeps its meaning
+        self.absolutebase = base if scheme or location else None
 
     def __call__(self, uri):
         scheme, location, path, query, fragment = urllib.parse.urlsplit(uri)
@@ -283,9 +286,18 @@ class Replacer:
             # keep anything absolute
             return uri
 
+        if self.absolutebase:
+            return urllib.parse.urljoin(self.absolutebase, uri)
+
+        if not path:
+            # only a query or fragment (or nothing at all): no path to adjust
+            return uri
+
         path, filename = os.path.split(path)
         combined = os.path.normpath(os.path.join(self.base, path, filename))
-        return urllib.request.pathname2url(combined)
+        # the path is an URL path already: quote only what is not quoted yet
+        combined = urllib.request.pathname2url(urllib.parse.unquote(combined))
+        return urllib.parse.urlunsplit(('', '', combined, query, fragment))
 
     @staticmethod
     def extract_base(uri):
